@@ -59,6 +59,7 @@ var designated = map[string][]string{
 	"omit_fib": {
 		"Add IPv4 entry that can be programmed on the server - with FIB ACK",
 		"Add next-hop-group entry that can be resolved on the server, no referencing IPv4 entries - with FIB ACK",
+		"Delete NH entry successfully - FIB ACK", // was declared with InstalledInRIB and passed against omit_fib until /repo 1e3d7ea
 	},
 	"nonprimary": {
 		"Election - Sending same election ID from two clients",
@@ -245,9 +246,9 @@ func runCase(cs Case, suite map[string]*compliance.TestSpec) (CaseResult, []stri
 	if cfg.Base == 0 || cfg.Dflt == "" || cfg.Vrf == "" {
 		cfg = configs[0]
 	}
-	wd := 150 * time.Second
-	if kind != "reference" || cs.Kind == "cells" {
-		wd = 4 * time.Second
+	wd := 150 * time.Second // a compliance test waits for at most a minute, twice
+	if kind != "reference" {
+		wd = 4 * time.Second // a test that the fault leaves waiting for ever counts as failed
 	}
 	var e *env
 	var err error
